@@ -181,6 +181,15 @@ def run(ctx, report):
                 report.violation({**rec, "what": "metadata query or read raised: " + canon_err(e) + " " + str(e)[:120], "sig": "raised:" + canon_err(e) + ":" + variant})
                 continue
             probs = []
+            # what the handle itself reports (`pf.dtypes`, no options) is the answer for a default read, whatever reads went before
+            try:
+                now = {c: dname(d) for c, d in pf.dtypes.items()}
+                fresh = {c: dname(d) for c, d in fastparquet.ParquetFile(path, pandas_nulls=pandas_nulls).dtypes.items()}
+                if now != fresh:
+                    c0 = next(c for c in fresh if now.get(c) != fresh[c])
+                    probs.append(f"after a read with categories={cats!r} the handle's dtypes report {c0}: {now.get(c0)}, a fresh handle (and a default read) says {fresh[c0]}")
+            except Exception as e:  # noqa
+                probs.append("pf.dtypes raised " + canon_err(e))
             want_cols = (columns if columns is not None else pred_cols)
             index_cols = [] if idx is False else (pred_index or [])
             exp_data_cols = [c for c in want_cols if c not in index_cols]
